@@ -216,9 +216,13 @@ parser! {
             / c_comment()
             / c_another_comment()
 
-        // the pieces of a line in front of its trailing comment, without the quoted texts
+        // a block comment that is opened and never closed
+        rule unclosed_block() = "/*" (!"*/" [_])* ![_]
+
+        // the pieces of a line in front of its trailing comment, without the quoted texts and the block comments;
+        // every alternative consumes what it has looked at, so that a long line is read once
         pub rule code_part() -> Vec<&'input str>
-            = p:(string() { "" } / ch() { "" } / c:$(!comment() [_]) { c })* [_]* { p }
+            = p:(string() { "" } / ch() { "" } / c_block() { "" } / c:$(unclosed_block()) { c } / c:$(!(";" / "//") [_]) { c })* [_]* { p }
 
         // instruction line
         pub rule instruction_line() -> Document
